@@ -119,6 +119,15 @@ pub(crate) fn without_terminator(
     bytes: &[u8],
     line_term: LineTerminator,
 ) -> &[u8] {
+    if line_term.is_crlf() {
+        // In CRLF mode a `\n` always terminates a line and a `\r` right
+        // before it is part of the terminator, so a line ending in a bare
+        // `\n` must lose that `\n` too.
+        return match bytes.strip_suffix(b"\n") {
+            None => bytes,
+            Some(line) => line.strip_suffix(b"\r").unwrap_or(line),
+        };
+    }
     let line_term = line_term.as_bytes();
     let start = bytes.len().saturating_sub(line_term.len());
     if bytes.get(start..) == Some(line_term) {
